@@ -61,9 +61,15 @@ impl SubscriptionManager {
             state.create_subscription(info, topic.clone(), self.push_registry.clone(), delegate)?
         };
 
-        topic
-            .attach_subscription(subscription.clone())
+        // Attach the subscription to the topic in a task of its own: if the caller goes away
+        // while the topic is busy, the subscription must not be left registered but unattached.
+        let attach = tokio::spawn({
+            let subscription = subscription.clone();
+            async move { topic.attach_subscription(subscription).await }
+        });
+        attach
             .await
+            .unwrap_or(Err(AttachSubscriptionError::Closed))
             .map_err(|e| match e {
                 AttachSubscriptionError::Closed => CreateSubscriptionError::Closed,
             })?;
